@@ -425,6 +425,12 @@ func (iv integerValue) ToString(b io.Writer, s px.FormatContext, g px.RDetect) {
 	case 'p', 'b', 'B':
 		longVal := int64(iv)
 		intString := strconv.FormatInt(longVal, integerRadix(f.FormatChar()))
+		sign := ``
+		if longVal < 0 && f.FormatChar() != 'p' {
+			// The sign of a binary number precedes the radix prefix and the zero padding
+			sign = `-`
+			intString = intString[1:]
+		}
 		totWidth := 0
 		if f.Width() > 0 {
 			totWidth = f.Width()
@@ -444,7 +450,7 @@ func (iv integerValue) ToString(b io.Writer, s px.FormatContext, g px.RDetect) {
 		if f.IsAlt() && longVal != 0 && !(f.FormatChar() == 'o' && zeroPad > 0) {
 			pfx = integerPrefixRadix(f.FormatChar())
 		}
-		computedFieldWidth := len(pfx) + intMax(numWidth, len(intString))
+		computedFieldWidth := len(sign) + len(pfx) + intMax(numWidth, len(intString))
 
 		for spacePad := totWidth - computedFieldWidth; spacePad > 0; spacePad-- {
 			_, err = b.Write([]byte{' '})
@@ -456,7 +462,7 @@ func (iv integerValue) ToString(b io.Writer, s px.FormatContext, g px.RDetect) {
 			break
 		}
 
-		_, err = io.WriteString(b, pfx)
+		_, err = io.WriteString(b, sign+pfx)
 		if err != nil {
 			break
 		}
